@@ -179,6 +179,10 @@ def layout_cases(draw):
         t["dtype_data"] = draw(st.sampled_from(["float64", "int64", "int32", "uint16", "int16", "int8"]))
         t["mixed_components"] = draw(st.booleans())  # second component keeps fractional float values while the first has an integer dtype
         t["dtype_query"] = draw(st.sampled_from(["float64", "int64", "int32", "uint16", "uint32", "int16", "uint8"]))
+    if not integer and draw(st.integers(0, 4)) == 0:
+        # query points that are almost, but not quite, a regular grid (each a few 1e-6 of its coordinate away from its node), handed over as 2-D arrays
+        t["near_grid"] = [draw(st.integers(2, 5)), draw(st.integers(2, 5))]
+        t["query"] = draw(st.sampled_from(["2d", "fortran"]))
     t["fit_shape"] = draw(st.sampled_from(blocks.shape_options(n)[1:] or [[n, 1]]))
     t["query_shape"] = draw(st.sampled_from(blocks.shape_options(m)[1:] or [[m, 1]]))
     case["transform"] = t
@@ -205,6 +209,14 @@ def check_layout(case, ctx):
             ctx.skip("scipy_cannot_triangulate")
     if t["query"] == "0d":
         qe, qn = qe[:1], qn[:1]
+    if t.get("near_grid"):
+        rows, cols = t["near_grid"]
+        ge, gn = np.meshgrid(np.linspace(min(e), max(e), cols), np.linspace(min(n), max(n), rows))
+        wob = np.array([[((3 * i + 7 * j) % 5 - 2) / 2.0 for j in range(cols)] for i in range(rows)])
+        ge = ge + wob * 4e-6 * np.maximum(np.abs(ge), 1e-3)
+        gn = gn + wob.T[:rows, :cols] * 4e-6 * np.maximum(np.abs(gn), 1e-3) if rows == cols else gn + wob[::-1, ::-1] * 4e-6 * np.maximum(np.abs(gn), 1e-3)
+        qe, qn = ge.ravel().tolist(), gn.ravel().tolist()
+        t = dict(t, query_shape=[rows, cols])
     ref = fit_predict(case, np.array(e, dtype="float64"), np.array(n, dtype="float64"), [np.array(d, dtype="float64") for d in case["data"]],
                       np.array(qe, dtype="float64"), np.array(qn, dtype="float64"))
     dc, dd, dq = t.get("dtype_coords", "float64"), t.get("dtype_data", "float64"), t.get("dtype_query", "float64")
@@ -231,7 +243,7 @@ def check_layout(case, ctx):
     compare(ctx, "%s with fit layout %s/%s/%s, query layout %s/%s, %d extra coordinate(s)" % (case["gridder"], fit_kind, dc, dd, t["query"], dq, t["extra"]),
             ref, got, 1e-12 * magnitude(case, ref), qshape)
     changed = fit_kind != "same" or t["query"] != "same" or t["extra"] or t["qextra"] or (dc, dd, dq) != ("float64",) * 3
-    ctx.label(case["gridder"], "fit_" + fit_kind, "query_" + t["query"], "extra%d" % t["extra"])
+    ctx.label(case["gridder"], "fit_" + fit_kind, "query_" + t["query"], "extra%d" % t["extra"], *(["near_grid_query"] if t.get("near_grid") else []))
     if (dc, dd, dq) != ("float64",) * 3:
         ctx.label(*["narrow_or_unsigned_" + w for w, d_ in (("coords", dc), ("data", dd), ("query", dq)) if d_ not in ("float64", "int64", "int32")])
         ctx.label("int_coords" if dc != "float64" else "float_coords", "int_data" if dd != "float64" else "float_data", "int_query" if dq != "float64" else "float_query")
